@@ -25,15 +25,11 @@ df.count()
 
 
 def run_row(cols):
-    got = df.select("id", *cols).collect()
-    got.sort(key=lambda r: r[0])
-    return [[cc.canon(r[k + 1]) for r in got] for k in range(len(cols))]
+    return cc.run_row(df, cols)
 
 
 def run_agg(cols):
-    a = df.where(F.col("id") <= 5).agg(*cols).collect()[0]
-    b = df.where(F.col("id") == 6).agg(*cols).collect()[0]
-    return [[cc.canon(a[k]), cc.canon(b[k])] for k in range(len(cols))]
+    return cc.run_agg(df, F, cols)
 
 
 def err(ex):
